@@ -37,7 +37,9 @@ func (p c04path) eq(q c04path) bool {
 
 // values are immutable trees
 type c04val struct {
-	K             byte // i n s a l m p  (int nil struct array slice map pointer)
+	K             byte // i n s a l m p b  (int nil struct array slice map pointer boxed)
+	Tag           int     // boxed: dynamic type tag
+	In            *c04val // boxed: the value
 	Z             int64
 	Fs            []*c04val
 	P             c04path // pointer target / slice base
@@ -89,8 +91,8 @@ func c04Zero(t *c04ty) *c04val {
 	case c04Int, c04Key:
 		return c04IntVal(0)
 	case c04Struct:
-		fs := make([]*c04val, len(c04FieldTypes))
-		for i, ft := range c04FieldTypes {
+		fs := make([]*c04val, t.n)
+		for i, ft := range c04FieldTypes[:t.n] {
 			fs[i] = c04Zero(ft)
 		}
 		return &c04val{K: 's', Fs: fs}
@@ -290,6 +292,14 @@ func (s *c04state) evalRv(e *c04ex) *c04val {
 			}
 		}
 		return c04Zero(e.T)
+	case "box":
+		return &c04val{K: 'b', Tag: e.V, In: s.evalRv(e.A)}
+	case "unbox":
+		v := s.evalRv(e.A)
+		if v.K != 'b' || v.Tag != e.V {
+			c04throw("BadAssert")
+		}
+		return v.In
 	}
 	panic("c04: evalRv " + e.K)
 }
@@ -315,6 +325,7 @@ type c04RealS struct {
 	L []int
 	M map[string]int
 	P *c04RealS
+	E interface{}
 }
 
 // c04RealGrow asks the Go run-time itself: capacity after appending to a slice with the given
@@ -326,6 +337,8 @@ func c04RealGrow(ek, oldCap, oldLen, need int) int {
 		t = reflect.TypeOf([]int(nil))
 	case 1:
 		t = reflect.TypeOf([]c04RealS(nil))
+	case 3:
+		t = reflect.TypeOf([]interface{}(nil))
 	default:
 		t = reflect.TypeOf([][]int(nil))
 	}
@@ -544,7 +557,7 @@ func (s *c04state) show(t *c04ty, v *c04val, cands []c04path, out *[]int64) {
 	case c04Int, c04Key:
 		*out = append(*out, v.Z)
 	case c04Struct:
-		for i, ft := range c04FieldTypes {
+		for i, ft := range c04FieldTypes[:t.n] {
 			s.show(ft, v.Fs[i], cands, out)
 		}
 	case c04Arr:
@@ -569,6 +582,24 @@ func (s *c04state) show(t *c04ty, v *c04val, cands []c04path, out *[]int64) {
 			} else {
 				*out = append(*out, 0)
 			}
+		}
+	case c04Any:
+		if v.K != 'b' {
+			*out = append(*out, 0)
+			return
+		}
+		*out = append(*out, int64(v.Tag+1))
+		switch v.Tag {
+		case 0, 1:
+			*out = append(*out, v.In.Z)
+		case 2:
+			*out = append(*out, v.In.Fs[0].Z, v.In.Fs[1].Fs[0].Z, v.In.Fs[1].Fs[1].Z)
+		case 3:
+			s.show(c04TPS, v.In, cands, out)
+		case 4:
+			s.show(c04TLI, v.In, cands, out)
+		case 5:
+			*out = append(*out, v.In.Fs[0].Z)
 		}
 	case c04Ptr:
 		if v.K != 'p' {
@@ -599,7 +630,7 @@ func (s *c04state) show(t *c04ty, v *c04val, cands []c04path, out *[]int64) {
 func (s *c04state) observe() []int64 {
 	var out []int64
 	cands := s.cands()
-	for id := 0; id <= 11; id++ {
+	for id := 0; id < c04PoolSize; id++ {
 		v := s.read(c04path{L: s.lookup(id)})
 		s.show(c04PoolTypes[id], v, cands, &out)
 	}
@@ -608,7 +639,7 @@ func (s *c04state) observe() []int64 {
 
 func c04InitState() *c04state {
 	s := &c04state{Grow: map[[3]int]int{}}
-	for id := 0; id <= 11; id++ {
+	for id := 0; id < c04VarCount; id++ {
 		l := s.alloc(&c04cell{V: c04Zero(c04PoolTypes[id])})
 		s.E = append(s.E, c04bind{id, l})
 	}
